@@ -119,13 +119,13 @@ Section Del.
 
   (* C is closed under "aggregated node of" in the original state *)
   Definition closedset (C : list Z) : Prop :=
-    forall x r, In x C -> In r (F (rs st0) x) -> agg (fst r) = true -> In (snd r) (nodes st0) ->
-                In (snd r) C.
+    forall x r, In x C -> In x (nodes st0) -> In r (F (rs st0) x) -> agg (fst r) = true ->
+                In (snd r) (nodes st0) -> In (snd r) C.
 
   Definition Post (D D' : list Z) (cur' : astate) : Prop :=
     Rel D' cur' /\ incl D D' /\
-    (forall x, In x D' -> ~ In x D -> forall r, In r (F (rs st0) x) -> agg (fst r) = true ->
-               In (snd r) (nodes st0) -> In (snd r) D').
+    (forall x, In x D' -> ~ In x D -> In x (nodes st0) -> forall r, In r (F (rs st0) x) ->
+               agg (fst r) = true -> In (snd r) (nodes st0) -> In (snd r) D').
 
   Definition Minimal (D D' : list Z) (seed : Z -> Prop) : Prop :=
     forall C, closedset C -> (forall c, seed c -> In c C) -> forall x, In x D' -> In x D \/ In x C.
@@ -161,7 +161,7 @@ Section Del.
         destruct (IH cur1 D1 cur' HR1 E) as (D' & (HR' & Hi' & Hcl') & Hin' & Hmin').
         exists D'. split; [|split].
         * split; [exact HR'|]. split; [eapply incl_tran; eauto|].
-          intros x Hx Hn r Hr Ha Hs. destruct (in_dec Z.eq_dec x D1) as [H1|H1].
+          intros x Hx Hn Hx0 r Hr Ha Hs. destruct (in_dec Z.eq_dec x D1) as [H1|H1].
           -- apply Hi'. eapply Hcl1; eauto.
           -- eapply Hcl'; eauto.
         * intros c' [<-|Hc'] H0; [apply Hi', Hin1|apply Hin'; assumption].
@@ -191,31 +191,38 @@ Section Del.
     inversion E; subst r; clear E. cbn [snd].
     destruct (dels_char k IHk _ _ _ _ HR1 E2) as (D' & (HR' & Hi' & Hcl') & Hin' & Hmin').
     (* the children are the aggregated targets in the bucket of d *)
-    assert (Hch : forall r0, In r0 (F (rs cur) d) -> agg (fst r0) = true ->
-                             In (snd r0) (opt_list (find_aggregates_of cur d))).
-    { intros r0 Hr0 Ha. rewrite find_aggregates_of_eq. apply in_map. apply filter_In.
+    set (cs := opt_list (if memZ d (nodes cur) then find_aggregates_of cur d else None)) in *.
+    assert (Hch : memZ d (nodes cur) = true ->
+                  forall r0, In r0 (F (rs cur) d) -> agg (fst r0) = true -> In (snd r0) cs).
+    { intros Hex r0 Hr0 Ha. unfold cs. rewrite Hex, find_aggregates_of_eq. apply in_map. apply filter_In.
       split; [exact Hr0|]. rewrite (rel_tm _ _ HR). exact Ha. }
-    assert (Hch' : forall c, In c (opt_list (find_aggregates_of cur d)) ->
+    assert (Hch' : forall c, In c cs ->
+                             In d (nodes st0) /\
                              exists r0, In r0 (F (rs st0) d) /\ agg (fst r0) = true /\ snd r0 = c).
-    { intros c Hc. rewrite find_aggregates_of_eq in Hc. apply in_map_iff in Hc.
+    { intros c Hc. unfold cs in Hc. destruct (memZ d (nodes cur)) eqn:Hex; [|destruct Hc].
+      split; [exact (node_cur D cur d HR Hex)|].
+      rewrite find_aggregates_of_eq in Hc. apply in_map_iff in Hc.
       destruct Hc as (r0 & Hs & Hf). apply filter_In in Hf. destruct Hf as [Hf Ha].
       rewrite (rel_tm _ _ HR) in Ha. rewrite (rel_F _ _ HR) in Hf. apply Fexp_sub in Hf.
       exists r0. auto. }
     exists D'. split; [|split].
     - split; [exact HR'|]. split; [intros x Hx; apply Hi'; right; exact Hx|].
-      intros x Hx Hn r0 Hr0 Ha Hs.
+      intros x Hx Hn Hx0 r0 Hr0 Ha Hs.
       destruct (Z.eq_dec x d) as [->|Hxd].
-      + (* the children of d itself *)
+      + (* the children of d itself; d is a node that has not been deleted yet *)
+        assert (Hex : memZ d (nodes cur) = true).
+        { apply memZ_In. rewrite (rel_nodes _ _ HR). apply filter_In. split; [exact Hx0|].
+          unfold notin. apply negb_true_iff, memZ_false. exact Hn. }
         destruct (memZ (snd r0) D) eqn:EsD; [apply Hi'; right; apply memZ_In, EsD|].
-        apply Hin'; [|exact Hs]. apply Hch; [|exact Ha].
+        apply Hin'; [|exact Hs]. apply Hch; [exact Hex| |exact Ha].
         rewrite (rel_F _ _ HR). unfold Fexp. destruct dtr; [|exact Hr0].
         destruct (memZ d D) eqn:EdD; [apply memZ_In in EdD; contradiction|].
         apply filter_In. split; [exact Hr0|]. unfold notin. rewrite EsD. reflexivity.
       + eapply Hcl'; eauto. intros [<-|H]; [apply Hxd; reflexivity|contradiction].
     - apply Hi'. left. reflexivity.
     - intros C HC Hseed x Hx.
-      assert (Hs2 : forall c, In c (opt_list (find_aggregates_of cur d)) /\ In c (nodes st0) -> In c C).
-      { intros c [Hc H0]. destruct (Hch' c Hc) as (r0 & Hr0 & Ha & <-).
+      assert (Hs2 : forall c, In c cs /\ In c (nodes st0) -> In c C).
+      { intros c [Hc H0]. destruct (Hch' c Hc) as (Hd0 & r0 & Hr0 & Ha & <-).
         apply (HC d r0); auto. }
       destruct (Hmin' C HC Hs2 x Hx) as [[<-|H1]|H1].
       + right. apply Hseed. reflexivity.
@@ -227,13 +234,14 @@ Section Del.
   Theorem delete_char target b st' : agg target = false ->
     delete st0 target dtr = Some (b, st') ->
     exists D, Rel D st' /\ In target D /\
-      (forall x r, In x D -> In r (F (rs st0) x) -> agg (fst r) = true -> In (snd r) (nodes st0) -> In (snd r) D) /\
+      (forall x r, In x D -> In x (nodes st0) -> In r (F (rs st0) x) -> agg (fst r) = true ->
+                   In (snd r) (nodes st0) -> In (snd r) D) /\
       (forall C, closedset C -> In target C -> incl D C).
   Proof.
     intros Ht E. unfold delete in E.
     destruct (del_char _ _ _ _ _ Rel_init Ht E) as (D & (HR & _ & Hcl) & Hin & Hmin).
     cbn [snd] in HR. exists D. split; [exact HR|]. split; [exact Hin|]. split.
-    - intros x r Hx. apply Hcl; [exact Hx|intros []].
+    - intros x r Hx Hx0. apply Hcl; [exact Hx|intros []|exact Hx0].
     - intros C HC HtC x Hx. destruct (Hmin C HC) with (x := x) as [[]|H]; auto. intros c ->. exact HtC.
   Qed.
 End Del.
